@@ -1,7 +1,7 @@
 From Coq Require Import Extraction ExtrOcamlBasic.
 From Common Require Import Bytes Drv.
-From C08 Require Import ModelMap Model ModelSpec ModelGuards ModelCheck.
+From C08 Require Import ModelMap Model ModelSpec ModelGuards ModelCheck ModelHeap.
 Extraction "model.ml" drv_b2n drv_n2b drv_z_of_n drv_n_of_z drv_nat_of_n drv_n_of_nat
-  cfg_pinned cfg_fixed cfg_pre7 ts_init step run final_obs ss_init srun norm_obs norm_children
+  cfg_pinned cfg_fixed cfg_pre7 ts_init step run final_obs ss_init sstep srun norm_obs norm_children
   backend levels c_main c_children om_get om_next kcmp run_guards limit_guard order_guard
-  model_ok agrees_b view_of.
+  model_ok agrees_b view_of hstep hrun hs_empty heap_ok heap_prop shared_root hs_lookup.
